@@ -188,6 +188,18 @@ pub fn c09(c: &mut Ctx, b: &Budget) {
                 c.count("branch:double-signature");
             }
         }
+        // thresholds above the number of keys, over lists in which EVERY key has signed (nothing is missing - only the number is too large)
+        {
+            let signed_keys: Vec<&dyn bc_envelope::Verifier> = chosen.iter().filter(|&&j| !sg[j].name.starts_with("ssh-ecdsa")).map(|&j| &sg[j].pk as &dyn bc_envelope::Verifier).collect();
+            if !signed_keys.is_empty() {
+                for t in [signed_keys.len(), signed_keys.len() + 1, signed_keys.len() + 7, usize::MAX] {
+                    let h = guarded(|| signed.has_signatures_from_threshold(&signed_keys, Some(t)).ok());
+                    let v = guarded(|| signed.verify_signatures_from_threshold(&signed_keys, Some(t)).is_ok());
+                    let want = t <= signed_keys.len();
+                    c.check("threshold-iff", h == Ok(Some(want)) && v == Ok(want), "threshold", || format!("every one of {} keys has signed, threshold {}: has = {:?}, verify = {:?}", signed_keys.len(), t, h, v));
+                }
+            }
+        }
         // threshold
         let keys: Vec<&dyn bc_envelope::Verifier> = sg.iter().map(|s| &s.pk as &dyn bc_envelope::Verifier).collect();
         // (a signer whose own signature the dependency refuses - the recorded SSH-ECDSA finding, reported by verify_all above - does not count)
@@ -195,6 +207,10 @@ pub fn c09(c: &mut Ctx, b: &Budget) {
         for t in 1..=(sg.len() + 1) {
             let got = guarded(|| signed.has_signatures_from_threshold(&keys, Some(t)));
             c.check("threshold-iff", matches!(got, Ok(Ok(v)) if v == (valid >= t)), "threshold", || format!("threshold {} with {} valid of {}: {:?}", t, valid, sg.len(), got.map(|r| r.map_err(|e| e.to_string()))));
+            // the chaining form is the same verdict as an error
+            let v = guarded(|| signed.verify_signatures_from_threshold(&keys, Some(t)).is_ok());
+            let h = guarded(|| signed.has_signatures_from_threshold(&keys, Some(t)).unwrap_or(false));
+            c.check("threshold-iff", v == h, "threshold", || format!("threshold {} over {} keys: verify_signatures_from_threshold says {:?}, has_signatures_from_threshold says {:?}", t, keys.len(), v, h));
         }
         let got = guarded(|| signed.has_signatures_from(&keys));
         c.check("threshold-none-means-all", matches!(got, Ok(Ok(v)) if v == (valid == sg.len())), "threshold", || "None threshold".into());
@@ -425,6 +441,24 @@ pub fn c10(c: &mut Ctx, b: &Budget) {
         let w = guarded(|| e.encrypt_to_recipient(pk));
         if let Ok(w) = w { let got = guarded(|| w.decrypt_to_recipient(sk)); c.check("encrypt-to-recipient-roundtrip", matches!(&got, Ok(Ok(d)) if d.is_identical_to(&e)), "encrypt-to-recipient-roundtrip", || shape(&e));
             let got = guarded(|| w.decrypt_to_recipient(&outsiders[0].0)); c.check("outsider-fails", matches!(got, Ok(Err(_))), "outsider-opens", || "whole form".into()); }
+        // recipients attached BEFORE the subject is encrypted (add_recipient takes the content key explicitly): on a bare envelope,
+        // a wrapped one and one with assertions; every recipient opens it afterwards
+        {
+            let ck0 = SymmetricKey::new();
+            for start in [Envelope::new("Hello."), e.wrap_envelope(), e.clone(), Envelope::new(known_values::NOTE), Envelope::new_assertion("p", "o")] {
+                if start.subject().is_encrypted() || start.subject().is_elided() { continue; }
+                let mut x = start.clone();
+                for (_, pk0) in &keys { x = x.add_recipient(pk0, &ck0); }
+                match guarded(|| x.encrypt_subject(&ck0)) {
+                    Ok(Ok(enc0)) => {
+                        c.check("recipients-before-encryption", guarded(|| enc0.recipients().map(|r| r.len()).ok()) == Ok(Some(keys.iter().map(|k| k.1.clone()).collect::<Vec<_>>().len())) || keys.len() != keys.iter().map(|k| format!("{:?}", k.1)).collect::<HashSet<_>>().len(), "recipients-before-encryption", || format!("recipients lost: {}", shape(&enc0)));
+                        for (sk0, _) in &keys { let d = guarded(|| enc0.decrypt_subject_to_recipient(sk0)); c.check("recipients-before-encryption", matches!(&d, Ok(Ok(o)) if o.subject().is_identical_to(&start.subject())), "recipients-before-encryption", || format!("recipient added before the encryption of {} cannot open {}", shape(&start), shape(&enc0))); }
+                    }
+                    other => c.check("recipients-before-encryption", false, "recipients-before-encryption", || format!("{:?}", other.map(|r| r.map(|_| ()).map_err(|e| e.to_string())))),
+                }
+            }
+            c.count("branch:recipients-before-encryption");
+        }
         // layers: an envelope that is already encrypted to this very recipient, encrypted to it again (a relayed message): one
         // decrypt_to_recipient takes off one layer, no more
         if let Ok(inner) = guarded(|| e.encrypt_to_recipient(pk)) {
@@ -455,6 +489,14 @@ pub fn c10(c: &mut Ctx, b: &Budget) {
             c.check("unseal-wrong-sender", matches!(got, Ok(Err(_))), "unseal-wrong-sender", || "accepted".into());
             let got = guarded(|| s.unseal(&sender.schnorr_public_keys(), &wrong));
             c.check("unseal-wrong-recipient", matches!(got, Ok(Err(_))), "unseal-wrong-recipient", || "accepted".into());
+            // whoever handles the sealed envelope can add assertions to it - a signature of his own over the (digest-preserving)
+            // encrypted subject, a note: that makes him neither the sender nor changes what the genuine sender's unseal returns
+            let mallory = PrivateKeyBase::new();
+            let tampered = s.add_signature(&mallory).add_assertion(known_values::NOTE, "forwarded");
+            let got = guarded(|| tampered.unseal(&mallory.schnorr_public_keys(), &recip));
+            c.check("unseal-wrong-sender", matches!(got, Ok(Err(_))), "unseal-wrong-sender", || format!("a signature added to the sealed envelope from outside made its signer the sender: {:?}", got.map(|r| r.map(|d| shape(&d)).map_err(|e| e.to_string()))));
+            let got = guarded(|| tampered.unseal(&sender.schnorr_public_keys(), &recip));
+            c.check("seal-unseal", matches!(&got, Ok(Ok(d)) if d.is_identical_to(&e)), "seal-unseal", || "assertions added to the sealed envelope from outside changed what the genuine sender's unseal returns".into());
         }
         c.end();
     }
@@ -500,8 +542,32 @@ fn c11_resplit(c: &mut Ctx, b: &Budget) {
     }
 }
 
+/// the largest groups the format allows (16 members, 16 groups): every pair with the last member, the last group
+fn c11_largest(c: &mut Ctx, _b: &Budget) {
+    c.begin("sskr-largest");
+    let e = Envelope::new("largest").wrap_envelope();
+    let ck = SymmetricKey::new();
+    let enc = e.encrypt_subject(&ck).unwrap();
+    for (gt, groups) in [(1usize, vec![(2usize, 16usize)]), (1, vec![(16, 16)]), (2, vec![(1, 1); 16]), (1, vec![(1, 16)])] {
+        let spec = SSKRSpec::new(gt, groups.iter().map(|(t, n)| SSKRGroupSpec::new(*t, *n).unwrap()).collect()).unwrap();
+        let mut rng = c.rng.lib_rng();
+        let shares = match guarded(|| enc.sskr_split_using(&spec, &ck, &mut rng)) { Ok(Ok(s)) => s, other => { c.check("split", false, "split", || format!("{:?}", other.map(|r| r.map(|_| ()).map_err(|e| e.to_string())))); continue; } };
+        let sets: Vec<Vec<&Envelope>> = if groups.len() == 16 { (0..15).map(|g| vec![&shares[g][0], &shares[15][0]]).collect() }
+            else if groups[0].0 == 16 { vec![shares[0].iter().collect()] }
+            else if groups[0].0 == 1 { (0..16).map(|m| vec![&shares[0][m]]).collect() }
+            else { (0..15).map(|m| vec![&shares[0][m], &shares[0][15]]).collect() };
+        for (k, set) in sets.iter().enumerate() {
+            let got = guarded(|| Envelope::sskr_join(set));
+            c.check("join-iff-quorum", matches!(&got, Ok(Ok(j)) if j.is_identical_to(&e)), "join-fails-with-quorum", || format!("policy {}-of-{:?}: quorum number {} containing the last member / group: {:?}", gt, groups, k, got.as_ref().map(|r| r.as_ref().map(|_| ()).map_err(|e| e.to_string()))));
+        }
+        c.count_n("largest-quorums", sets.len() as u64);
+    }
+    c.end();
+}
+
 pub fn c11(c: &mut Ctx, b: &Budget) {
     c11_resplit(c, b);
+    c11_largest(c, b);
     let policies: Vec<(usize, Vec<(usize, usize)>)> = if b.thorough {
         vec![(1, vec![(1, 1)]), (1, vec![(2, 3)]), (1, vec![(3, 4)]), (2, vec![(1, 2), (2, 3)]), (2, vec![(2, 3), (2, 3), (1, 1)]), (1, vec![(2, 2), (3, 4)]), (3, vec![(1, 1), (2, 2), (2, 3)]), (2, vec![(2, 4), (3, 4), (1, 2)]), (2, vec![(2, 3), (3, 5)])]
     } else { vec![(1, vec![(1, 1)]), (1, vec![(2, 3)]), (2, vec![(1, 2), (2, 3)]), (2, vec![(2, 3), (2, 3), (1, 1)]), (1, vec![(2, 2), (3, 4)]), (2, vec![(3, 4), (2, 3)])] };
@@ -557,6 +623,26 @@ pub fn c11(c: &mut Ctx, b: &Budget) {
                 if !q1 { c.check("join-iff-quorum", matches!(got, Ok(Err(_))), "join-without-quorum", || "one re-split envelope alone joined".into()); }
                 import(c, &f3[0]);
                 c.count("branch:resplit");
+            }
+        }
+        // the public sskr_split (its own random source) twice on the same envelope, same policy and another one: each split joins
+        // by itself, and a quorum of one with a stray share of the other still joins
+        if pi % 3 == 0 {
+            let spec_b = SSKRSpec::new(1, vec![SSKRGroupSpec::new(2, 3).unwrap()]).unwrap();
+            if let (Ok(Ok(sa)), Ok(Ok(sa2)), Ok(Ok(sb))) = (guarded(|| enc.sskr_split(&spec, &ck)), guarded(|| enc.sskr_split(&spec, &ck)), guarded(|| enc.sskr_split(&spec_b, &ck))) {
+                let fa: Vec<Envelope> = sa.into_iter().flatten().collect(); let fa2: Vec<Envelope> = sa2.into_iter().flatten().collect(); let fb: Vec<Envelope> = sb.into_iter().flatten().collect();
+                let all_a: Vec<&Envelope> = fa.iter().collect();
+                let got = guarded(|| Envelope::sskr_join(&all_a));
+                c.check("join-iff-quorum", matches!(&got, Ok(Ok(j)) if j.is_identical_to(&e)), "join-fails-with-quorum", || "all shares of one sskr_split".into());
+                for (what, stray) in [("the same policy", &fa2[0]), ("another policy", &fb[0])] {
+                    let mut pile: Vec<&Envelope> = fa.iter().collect(); pile.insert(1.min(pile.len()), stray);
+                    let got = guarded(|| Envelope::sskr_join(&pile));
+                    c.check("mixed-splits-join", matches!(&got, Ok(Ok(j)) if j.is_identical_to(&e)), "interleaved-splits", || format!("all shares of one sskr_split plus one share of a second sskr_split of the same envelope under {}: {:?}", what, got.as_ref().map(|r| r.as_ref().map(shape).map_err(|e| e.to_string()))));
+                }
+                let qb: Vec<&Envelope> = vec![&fb[0], &fb[2], &fa[0]];
+                let got = guarded(|| Envelope::sskr_join(&qb));
+                c.check("mixed-splits-join", matches!(&got, Ok(Ok(j)) if j.is_identical_to(&e)), "interleaved-splits", || "a quorum of the second split with a stray share of the first".into());
+                c.count("branch:public-split-twice");
             }
         }
         // shares mixed from two different splits (identifier collisions regenerated)
@@ -625,7 +711,7 @@ pub fn c17(c: &mut Ctx, b: &Budget) {
         import(c, &s1);
         c.check("independent-salts-differ", s1.digest() != s2.digest() && s1.elide().digest() != s2.elide().digest(), "salts-equal", || "two saltings gave one digest".into());
         c.check("salting-changes-digest", s1.digest() != e.digest(), "salting-noop", || shape(&s1));
-        for n in [0usize, 1, 7, 8, 9, 16, 100] {
+        for n in [0usize, 1, 7, 8, 9, 16, 100, 255, 256, 257, 300, 512, 513, 1000, 4097] {
             match guarded(|| e.add_salt_with_len(n)) { Ok(Ok(s)) => { c.check("short-salt-refused", n >= 8, "short-salt-accepted", || format!("len {}", n)); check_one(c, &s, n, n, "add_salt_with_len"); }
                 Ok(Err(_)) => c.check("short-salt-refused", n < 8, "valid-salt-refused", || format!("len {}", n)), Err(site) => c.check("no-panic", false, "salt-panic", || site) }
         }
@@ -669,6 +755,26 @@ pub fn c17(c: &mut Ctx, b: &Budget) {
             let n_new = s_after.assertions().len() - e.assertions().len();
             c.check("exactly-one-salt-assertion", n_new == 1 && s_after.assertions_with_predicate(known_values::SALT).iter().all(|a| a.is_assertion()), "salt-shape", || format!("add_salt after refused salted adds: {}", shape(&s_after)));
             c.count("branch:salted-add-of-nothing");
+        }
+        // a salted add sizes its salt by the assertion it salts, whatever the size of the envelope it is added to: a small assertion
+        // on a large envelope, a large assertion on a small one, through both doors
+        if i % 3 == 2 {
+            let small_recv = Envelope::new("s"); let big_recv = Envelope::new("big").add_assertion("blob", CBOR::to_byte_string(vec![7u8; 2000]));
+            let big_obj = CBOR::to_byte_string(vec![9u8; 3000]);
+            for (what, recv, pred, obj) in [("small assertion on a large envelope", &big_recv, "knows", CBOR::from("Bob")), ("large assertion on a small envelope", &small_recv, "data", big_obj.clone()), ("small on small", &small_recv, "k", CBOR::from(1))] {
+                let bare = Envelope::new_assertion(pred, obj.clone());
+                let asz = bytes_of(&bare).len();
+                let alo = 8usize.max((asz as f64 * 0.05).ceil() as usize);
+                let ahi = (alo + 8).max((asz as f64 * 0.25).ceil() as usize);
+                for (door, got) in [("add_assertion_salted", guarded(|| recv.add_assertion_salted(pred, obj.clone(), true))), ("add_assertion_envelope_salted", guarded(|| recv.add_assertion_envelope_salted(bare.clone(), true).unwrap()))] {
+                    if let Ok(x) = got {
+                        let fresh: Vec<Envelope> = x.assertions().into_iter().filter(|a| !recv.assertions().iter().any(|y| y.digest() == a.digest())).collect();
+                        let len = fresh.first().map(|f| f.assertions_with_predicate(known_values::SALT)).and_then(|v| v.first().cloned()).and_then(|sa| sa.as_object()).and_then(|o| o.extract_subject::<Salt>().ok()).map(|s| s.len());
+                        c.check("salt-length", fresh.len() == 1 && matches!(len, Some(n) if alo <= n && n <= ahi), "salt-length", || format!("{} through {}: the assertion is {} bytes, its salt {:?} bytes, documented {}..={}", what, door, asz, len, alo, ahi));
+                    }
+                }
+            }
+            c.count("branch:salted-add-sizes");
         }
         // fresh threads: salts drawn on threads that have never salted before are as independent as any others
         if i % 4 == 0 {
@@ -1064,6 +1170,22 @@ pub fn c19(c: &mut Ctx, b: &Budget) {
             let td3 = td.elide_removing_set(&t);
             let got = guarded(|| td3.has_type_envelope(decorated_type.clone()));
             c.check("has-type-iff-added", got == Ok(true), "has-type", || "type object partly elided after it was added".into());
+        }
+        // the two doors - Envelope::add_attachment and the Attachments container - agree for every triple, the awkward ones included
+        // (conformsTo present but empty, an empty vendor, text with blanks)
+        for (v, cf) in [("com.example", Some("")), ("", Some("x")), ("", Some("")), ("com.example", None), (" padded ", Some(" padded ")), ("com.example", Some("conf"))] {
+            let direct = guarded(|| e.add_attachment("payload", v, cf));
+            let mut cont = bc_envelope::Attachments::new(); cont.add("payload", v, cf);
+            let via = guarded(|| cont.add_to_envelope(e.clone()));
+            c.check("container-agrees", matches!((&direct, &via), (Ok(a), Ok(b2)) if a.is_identical_to(b2)), "attachments-container", || format!("vendor {:?} conformsTo {:?}: add_attachment gives {:?}, the container {:?}", v, cf, direct.as_ref().map(shape), via.as_ref().map(shape)));
+            if let Ok(x) = &via {
+                let got = guarded(|| x.attachments_with_vendor_and_conforms_to(Some(v), cf).map(|l| l.len()).ok());
+                c.check("filter-exact", got == Ok(Some(1)) || pre_existing > 0, "filter-exact", || format!("the attachment added through the container as ({:?}, {:?}) is not found by that very filter: {:?}", v, cf, got));
+                if let Ok(Ok(l)) = guarded(|| x.attachments()) { if let Some(a) = l.iter().find(|a| a.attachment_vendor().ok().as_deref() == Some(v) && a.attachment_payload().map(|p| p.is_identical_to(&Envelope::new("payload"))).unwrap_or(false)) {
+                    c.check("attachment-fields", a.attachment_conforms_to().ok().flatten().as_deref() == cf, "attachment-fields", || format!("conformsTo {:?} reads back as {:?}", cf, a.attachment_conforms_to().ok().flatten())); } }
+            }
+            let d = Envelope::new_attachment("payload", v, cf).digest().into_owned();
+            c.check("container-get", cont.get(&d).is_some(), "attachments-container", || format!("get by the digest of new_attachment(payload, {:?}, {:?})", v, cf));
         }
         // the Attachments container: reading the attachments of an envelope and writing them (back, or onto the bare original)
         if pre_existing == 0 {
